@@ -19,6 +19,11 @@ mod c13;
 mod modsplit;
 mod c14;
 mod c15;
+mod c16;
+mod c17;
+mod c20;
+mod syngen;
+mod synterm;
 mod c19;
 mod choices;
 mod cli;
@@ -31,7 +36,7 @@ use engine::*;
 
 fn checks() -> Vec<Box<dyn Check>>
 {
-	vec![Box::new(c01::C01), Box::new(c02::C02), Box::new(c03::C03), Box::new(c04::C04), Box::new(c05::C05), Box::new(c06::C06), Box::new(c07::C07), Box::new(c08::C08), Box::new(c09::C09), Box::new(c10::C10), Box::new(c11::C11), Box::new(c12::C12), Box::new(c13::C13), Box::new(c14::C14), Box::new(c15::C15), Box::new(c19::C19)]
+	vec![Box::new(c01::C01), Box::new(c02::C02), Box::new(c03::C03), Box::new(c04::C04), Box::new(c05::C05), Box::new(c06::C06), Box::new(c07::C07), Box::new(c08::C08), Box::new(c09::C09), Box::new(c10::C10), Box::new(c11::C11), Box::new(c12::C12), Box::new(c13::C13), Box::new(c14::C14), Box::new(c15::C15), Box::new(c16::C16), Box::new(c17::C17), Box::new(c19::C19), Box::new(c20::C20)]
 }
 
 fn main()
@@ -43,6 +48,24 @@ fn main()
 		Some("worker") =>
 		{
 			worker_main(&checks);
+		}
+		Some("xml") =>
+		{
+			// development aid: print the second-generation XML dump of a file
+			let src = std::fs::read_to_string(args.get(2).expect("file")).expect("read");
+			let p = c16::delta_parse(&src);
+			println!("lex {:?} parse {:?}", p.lex_codes, p.parse_codes);
+			for l in &p.xml
+			{
+				println!("{}", l);
+			}
+			match synterm::module_delta(&p.xml)
+			{
+				Ok(t) => println!("TERM {}", t),
+				Err(e) => println!("ERR {}", e),
+			}
+			let a = penne::alpha::parser::parse(penne::alpha::lexer::lex(&src, "m.pn"));
+			println!("ALPHA {}", synterm::module_alpha(&a));
 		}
 		Some("digest") =>
 		{
